@@ -35,6 +35,16 @@ func checkC17(c *Ctx) {
 	if !c.Anchor("R17.1", "zapio.Writer.Write/Sync/Close", wr != nil && sy != nil && cl != nil && wn != nil) {
 		return
 	}
+	// the writer's partial-line buffer: its one field of type bytes.Buffer or []byte
+	bufField := "buff"
+	if stt, ok := wn.Underlying().(*types.Struct); ok {
+		for i := 0; i < stt.NumFields(); i++ {
+			t := TypeName(stt.Field(i).Type())
+			if t == "bytes.Buffer" || t == "[]byte" || t == "*bytes.Buffer" {
+				bufField = stt.Field(i).Name()
+			}
+		}
+	}
 	explore := func(fn *ssa.Function) ([]string, bool, int) {
 		rn := fn.Params[0].Name()
 		resolve := func(st *ConcState, v ssa.Value) ssa.Value {
@@ -57,7 +67,7 @@ func checkC17(c *Ctx) {
 		}
 		isBuf := func(st *ConcState, v ssa.Value) bool {
 			d := st.Desc(v)
-			return d == rn+".buff" || d == "&"+rn+".buff" || strings.HasSuffix(d, rn+".buff")
+			return d == rn+"."+bufField || d == "&"+rn+"."+bufField || strings.HasSuffix(d, rn+"."+bufField)
 		}
 		// canon renders a value as it stood when it was bound on this path (ConcState.Desc keeps such snapshots); the
 		// writer's buffer contents are rendered "buf"
@@ -85,7 +95,7 @@ func checkC17(c *Ctx) {
 			for strings.HasPrefix(s, "conv[string](") && strings.HasSuffix(s, ")") {
 				s = strings.TrimSuffix(strings.TrimPrefix(s, "conv[string]("), ")")
 			}
-			for _, b := range []string{"Bytes(" + rn + ".buff)", "Bytes(&" + rn + ".buff)", "String(" + rn + ".buff)", "String(&" + rn + ".buff)", rn + ".buff"} {
+			for _, b := range []string{"Bytes(" + rn + "." + bufField + ")", "Bytes(&" + rn + "." + bufField + ")", "String(" + rn + "." + bufField + ")", "String(&" + rn + "." + bufField + ")", rn + "." + bufField} {
 				if s == b {
 					return "buf"
 				}
@@ -120,7 +130,7 @@ func checkC17(c *Ctx) {
 						return "sync"
 					}
 				case *ssa.Store:
-					if fa, ok := x.Addr.(*ssa.FieldAddr); ok && fieldName(fa.X.Type(), fa.Field) == "buff" {
+					if fa, ok := x.Addr.(*ssa.FieldAddr); ok && fieldName(fa.X.Type(), fa.Field) == bufField {
 						// a []byte buffer: append(copy) / truncate / anything else
 						v := resolve(st, x.Val)
 						if ap, ok := v.(*ssa.Call); ok && CallBuiltin(ap) == "append" && canon(st, ap.Call.Args[0], 0) == "buf" {
@@ -201,7 +211,7 @@ func checkC17(c *Ctx) {
 					case y == "0" && op == token.GEQ, y == "-1" && op == token.NEQ, y == "-1" && op == token.GTR:
 						return tf("nl("+ch+")", pol)
 					}
-				case (x == "len(buf)" || x == "len("+rn+".buff)" || x == "Len("+rn+".buff)" || x == "Len(&"+rn+".buff)") && y == "0":
+				case (x == "len(buf)" || x == "len("+rn+"."+bufField+")" || x == "Len("+rn+"."+bufField+")" || x == "Len(&"+rn+"."+bufField+")") && y == "0":
 					switch op {
 					case token.EQL, token.LEQ:
 						return tf("buf-empty", pol)
